@@ -74,6 +74,9 @@ class _Rec:
     def missing(self, rid, sym):
         self.ctx.missing(rid, sym)
 
+    def undecided(self, rid, what):
+        self.ctx.undecided(rid, what)
+
 
 def norm_add(t):
     """('add', a, b) for AddWithOverflow(..).0 and Add(..)"""
@@ -364,12 +367,22 @@ def r4(ctx, F, cfgname):
             # |(i, chunk)| compute(i as u32, chunk): closure over enumerate() of (par_)chunks(block_size)
             while idx_t[0] == 'cast':
                 idx_t = idx_t[1]
-            ok = idx_t[0] in ('field', 'vfield', 'param') and bool(data_o) and all(o.kind == 'param' for o in data_o)
+            # the index is the enumerate() counter itself (tuple field 0 of the closure argument), with no arithmetic on it
+            io = [o for o in fl.origins(t['args'][0]) if o.kind != 'comb']
+            ok = bool(io) and all(o.kind == 'param' and tuple(o.path)[-1:] == ('0',) for o in io) and bool(data_o) and all(o.kind == 'param' for o in data_o)
             parent = F.body(b_.parent)
             pfl = flow_of(parent)
             chunkers = pfl.calls(lambda c2: c2.endswith('::chunks') or c2.endswith('::par_chunks'))
             enums = pfl.calls(lambda c2: c2.endswith('::enumerate'))
-            bs_ok = bool(chunkers) and all(all(o.kind == 'param' and parent.local_name(o.key) == 'block_size' for o in pfl.origins(ct['args'][1])) for cb, ct in chunkers)
+            usize_params = [i for i in range(1, parent.argc + 1) if parent.local_ty(i) == 'usize']
+            bs_ok = bool(chunkers) and len(usize_params) == 1 and all(all(o.kind == 'param' and o.key == usize_params[0] for o in pfl.origins(ct['args'][1])) for cb, ct in chunkers)
+            # the chunked slice is the whole input, cut once: block i starts at i * block_size only then (a windowed loop that
+            # restarts the chunking shifts every later block whenever the window is not a multiple of the block size)
+            ploops = pfl.cfg.loops()
+            once = all(not any(cb in blocks for blocks in ploops.values()) for cb, ct in chunkers)
+            whole = all(any(o.kind == 'mutcall' and o.key.endswith('::read_to_end') for o in pfl.origins(ct['args'][0], mut_calls=True)) or
+                        all(o.kind == 'param' for o in pfl.origins(ct['args'][0])) for cb, ct in chunkers)
+            ok = ok and once and whole
             ctx.check(ok and bs_ok and len(enums) >= len(chunkers), 'C01.R4', 'signature-producer:%s' % b_.path.split('::')[-1] + ':' + cfgname,
                       'compute(enumerate index, chunk) over chunks(block_size)',
                       'a signature producer in %s does not hash zero-based sequential chunks of block_size' % top, term_loc(b_, bb))
